@@ -214,6 +214,9 @@ def benign(tier, seed, only=None):
     t00 = time.time()
     alarms = 0
     props = sorted(driver.PROPS)
+    if os.environ.get("VERIF_BENIGN_CHECKS"):
+        props = os.environ["VERIF_BENIGN_CHECKS"].split(",")
+        only = only or ""
     for p in sorted(glob.glob(os.path.join(VERIF_DIR, "benign", "*.patch"))):
         bid = os.path.basename(p)[:-6]
         if only and only not in bid:
@@ -264,7 +267,7 @@ def benign(tier, seed, only=None):
         print("benign %-40s %-18s suite_passes=%s %ss %s" % (bid, rec["status"], rec.get("suite_passes"),
                                                              rec.get("seconds"), json.dumps(rec.get("output", ""))[:300]))
     os.makedirs(OUT_DIR, exist_ok=True)
-    if not only:
+    if not only and not os.environ.get("VERIF_BENIGN_CHECKS"):
         with open(os.path.join(OUT_DIR, "benign.json"), "w") as fh:
             json.dump({"seed": seed, "tier": tier, "wall_s": round(time.time() - t00, 1), "results": results}, fh, indent=1)
     print("benign: %d of %d variants left every check silent" % (len(results) - alarms, len(results)))
